@@ -8,7 +8,6 @@ Driver ops for the stdlib collection / sequence / set functions (C13).
           | (c <val> <ty> <val>|err)        convert.Convert(val, ty)
           | (h <ety> <payload> <int>)       Value{ety, payload}.Hash()
           | (o <ety> <payload>*)            set iteration order of these members (non-primitive ety)
-          | (z)                             range's step argument IS cty.Zero
 
 Answer: `ok <val|ty>` | `err` (any error but PanicError) | `panicerr` (PanicError) |
 `panic` (a Go panic escaping the call) | `unmodelled`.
@@ -24,7 +23,6 @@ structure Tables where
   conv : List (Value × Ty × Option Value) := []
   hash : List (Ty × Payload × Int) := []
   order : List (Ty × List Payload) := []
-  zeroStep : Bool := false
 
 def decEntry (t : Tables) : Sexp → Option Tables
   | .list [.atom "u", .list tys, r] => do
@@ -44,7 +42,6 @@ def decEntry (t : Tables) : Sexp → Option Tables
     pure { t with hash := (← Ty.ofSexp ety, ← Payload.ofSexp p, ← Sexp.decInt i) :: t.hash }
   | .list (.atom "o" :: ety :: ps) => do
     pure { t with order := (← Ty.ofSexp ety, ← ps.mapM Payload.ofSexp) :: t.order }
-  | .list [.atom "z"] => some { t with zeroStep := true }
   | _ => none
 
 def decTables : List Sexp → Tables → Option Tables
@@ -73,8 +70,7 @@ def toEnv (t : Tables) : Env :=
         (match pos a e.2 0, pos b e.2 0 with
          | some i, some j => i < j
          | _, _ => false)
-      | none => false
-    stepIsZeroSingleton := t.zeroStep }
+      | none => false }
 
 def outStr {α} (f : α → String) : Fn.Out α → String
   | .ok a => "ok " ++ f a
